@@ -16,6 +16,10 @@
 //!          the real pipeline (`Resolver::resolve`, hard-wired DEFAULT_CAPS) and the run afterwards;
 //!          other = warnings of the analysis passes when a limit tripped (`*` within the limits)
 //! crash <hex src>   -> ok | panic     a program on which the generator saw the front end panic
+//! summ <budget> <f> <l> <callees;reads;writes;stmts>*f
+//!       -> <available>:<callees>:<reads>:<writes>:<class>:<body class> per function | panic
+//!          the real `compute_summaries_with_max_events` on synthetic facts holding exactly these
+//!          direct facts, with this event budget (see the section `summ` below)
 //! F=<functions>,<locals>,<scopes>,<statements>,<calls>;<locals_len of every function>
 //! ```
 //! The `X=` token of an `e2e` request may carry a *twin* (the model ignores the whole token):
@@ -68,13 +72,14 @@ pub fn main(args: &[String]) -> i32 {
         Some("gen") => generate(&args[1..]),
         Some("gen-e2e") => gen_e2e(&args[1..]),
         Some("gen-scc") => gen_scc(&args[1..]),
+        Some("gen-summ") => gen_summ(&args[1..]),
         Some("src") => print_src(&args[1..]),
         Some("mk") => mk(),
         Some("run") => run(),
         _ => {
             eprintln!(
                 "usage: nvh limits gen --seed S --n N [--lim M] | gen-e2e --case <name>:<delta>[,…] | \
-                 gen-scc [--case <scc/k=..>[,…]] [--seed S --n N [--big]] | \
+                 gen-scc [--case <scc/k=..>[,…]] [--seed S --n N [--big]] | gen-summ --seed S --n N [--fmax F] | \
                  src --case <name>:<delta> | src --case <scc/k=..> [--twin] | mk < '<caps> <hex src>' lines | run < requests"
             );
             2
@@ -344,6 +349,10 @@ fn answer(line: &str, lineno: usize) -> Answer {
             }
             let Some(caps) = parse_caps(&head[..11]) else { return bad() };
             answer_prog(Some(caps), head[11], head[12], None, lineno)
+        }
+        Some("summ") => {
+            let w: Vec<&str> = it.collect();
+            answer_summ(&w, lineno)
         }
         Some("crash") => {
             // a program the generator saw the front end panic on: re-run the library pipeline
@@ -855,6 +864,17 @@ fn answer_prog(caps: Option<AnalysisCaps>, rootspan: &str, hexsrc: &str, extras:
                 "summary budget: {lost} of {} function summaries are unavailable although the event budget equals the preflight bound {budget}",
                 summaries.len()
             ));
+        }
+    }
+    // What the budget theorem assumes of the direct facts (`Summary.DirectsOK`): one entry per
+    // function, no duplicates, ids in range.
+    if !resolver.errors.has_errors() {
+        let (nl, dfs) = directs_of_facts(facts);
+        if dfs.len() != facts.functions.len() || !directs_wellformed(nl, &dfs) {
+            oracle.push(
+                "summary facts: function_directs is not one duplicate-free list of in-range ids per function (the hypotheses of the event-budget theorem)"
+                    .to_string(),
+            );
         }
     }
     let mut ans = format!("counts={} limit={real_s}", counts_str(facts, &counts));
@@ -2221,4 +2241,622 @@ fn print_src(args: &[String]) -> i32 {
         }
         None => 2,
     }
+}
+
+// ------------------------------------------------------------------------------------------------
+// summ: the interprocedural summary fixpoint (`compute_summaries_with_max_events`) on given direct
+// facts with a given event budget
+//
+// summ <budget> <f> <l> <callees;reads;writes;stmts>*f      (lists: comma separated ids, `-` = empty;
+//       stmts = class level 0..2 of every statement of the function)
+//   -> <available>:<transitive callees, sorted>:<reads, sorted>:<writes, sorted>:<transitive class>:<body class>
+//      for every function, space separated; `panic` when the code panics (callee id >= f)
+//
+// The facts are synthetic (`ProgramFacts` holding exactly what the fixpoint reads: the number of
+// functions, `function_directs`, `function` and `expr_class` of every `stmt_effects` entry); the
+// generator takes them from random call graphs and from the real resolver's facts of random
+// programs.  The model side (`Summary.compute`) runs its own transcription of the scheduling, so
+// which summaries a starved budget leaves unavailable also compares the component order.
+
+#[derive(Clone, Default, PartialEq, Eq)]
+struct DirectFn {
+    callees: Vec<u32>,
+    reads: Vec<u32>,
+    writes: Vec<u32>,
+    stmts: Vec<u8>,
+}
+
+struct SummRow {
+    available: bool,
+    callees: Vec<u32>,
+    reads: Vec<u32>,
+    writes: Vec<u32>,
+    class: u8,
+    body: u8,
+}
+
+fn class_level(c: ExprClass) -> u8 {
+    match c {
+        ExprClass::PureNoTrap => 0,
+        ExprClass::PureMayTrap => 1,
+        ExprClass::Impure => 2,
+    }
+}
+
+fn level_class(n: u8) -> Option<ExprClass> {
+    match n {
+        0 => Some(ExprClass::PureNoTrap),
+        1 => Some(ExprClass::PureMayTrap),
+        2 => Some(ExprClass::Impure),
+        _ => None,
+    }
+}
+
+fn ids_str<T: std::fmt::Display>(v: &[T]) -> String {
+    if v.is_empty() {
+        return "-".to_string();
+    }
+    v.iter().map(T::to_string).collect::<Vec<_>>().join(",")
+}
+
+fn parse_ids<T: std::str::FromStr>(s: &str) -> Option<Vec<T>> {
+    if s == "-" {
+        return Some(Vec::new());
+    }
+    s.split(',').map(|x| x.parse().ok()).collect()
+}
+
+fn summ_request(budget: u64, locals: u64, fns: &[DirectFn]) -> String {
+    let mut s = format!("summ {budget} {} {locals}", fns.len());
+    for d in fns {
+        let _ = write!(s, " {};{};{};{}", ids_str(&d.callees), ids_str(&d.reads), ids_str(&d.writes), ids_str(&d.stmts));
+    }
+    s
+}
+
+fn parse_summ(w: &[&str]) -> Option<(u64, u64, Vec<DirectFn>)> {
+    if w.len() < 3 {
+        return None;
+    }
+    let budget: u64 = w[0].parse().ok()?;
+    let f: usize = w[1].parse().ok()?;
+    let locals: u64 = w[2].parse().ok()?;
+    if w.len() != 3 + f || f > 20_000 || locals > 1_000_000 {
+        return None;
+    }
+    let mut fns = Vec::with_capacity(f);
+    for t in &w[3..] {
+        let p: Vec<&str> = t.split(';').collect();
+        if p.len() != 4 {
+            return None;
+        }
+        let stmts: Vec<u8> = parse_ids(p[3])?;
+        if stmts.iter().any(|&c| c > 2) {
+            return None;
+        }
+        fns.push(DirectFn { callees: parse_ids(p[0])?, reads: parse_ids(p[1])?, writes: parse_ids(p[2])?, stmts });
+    }
+    Some((budget, locals, fns))
+}
+
+/// The hypotheses of the budget theorem (`Props/C18.lean`, `summary_budget_suffices`): ids in
+/// range, no duplicates.
+fn directs_wellformed(locals: u64, fns: &[DirectFn]) -> bool {
+    let nodup = |v: &[u32]| v.iter().enumerate().all(|(i, x)| !v[..i].contains(x));
+    fns.iter().all(|d| {
+        nodup(&d.callees)
+            && nodup(&d.reads)
+            && nodup(&d.writes)
+            && d.callees.iter().all(|&c| (c as usize) < fns.len())
+            && d.reads.iter().chain(d.writes.iter()).all(|&x| u64::from(x) < locals)
+    })
+}
+
+fn summary_bound(f: usize, locals: u64) -> u128 {
+    let f = f as u128;
+    f * (f + 2 * u128::from(locals) + 2)
+}
+
+/// The REAL fixpoint on synthetic facts, once per budget.
+fn real_summaries(locals: u64, fns: &[DirectFn], budgets: &[u64]) -> Vec<Vec<SummRow>> {
+    let arena = Arena::new(256 << 20).unwrap();
+    // One tiny real program supplies the node references the fact records must point at.
+    let lexer = Lexer::new("make x get 0", &arena);
+    let mut parser = Parser::new(lexer, &arena);
+    let (root, _errs) = parser.parse_program();
+    let stmt = root.stmts[0];
+    let mut facts: ProgramFacts<'_, '_> = ProgramFacts::new(&arena);
+    for (i, d) in fns.iter().enumerate() {
+        facts.functions.push(FunctionInfo {
+            name: "f",
+            params: None,
+            parent: if i == 0 { None } else { Some(FunctionId(0)) },
+            defining_scope: ScopeId(0),
+            def_span: root.span.clone(),
+            body_span: root.span.clone(),
+            body: root,
+            def_stmt: None,
+            locals_start: 0,
+            locals_len: 0,
+        });
+        let mut direct = naijascript::analysis::facts::FunctionDirectFacts {
+            direct_callees: Vec::new_in(&arena),
+            direct_capture_reads: Vec::new_in(&arena),
+            direct_capture_writes: Vec::new_in(&arena),
+        };
+        direct.direct_callees.extend(d.callees.iter().map(|&c| FunctionId(c)));
+        direct.direct_capture_reads.extend(d.reads.iter().map(|&x| naijascript::analysis::ids::LocalId(x)));
+        direct.direct_capture_writes.extend(d.writes.iter().map(|&x| naijascript::analysis::ids::LocalId(x)));
+        facts.function_directs.push(direct);
+        for &c in &d.stmts {
+            facts.stmt_effects.push(StmtEffectFacts {
+                stmt,
+                function: FunctionId(i as u32),
+                scope: ScopeId(0),
+                reads: Vec::new_in(&arena),
+                writes: Vec::new_in(&arena),
+                direct_callees: Vec::new_in(&arena),
+                expr_class: level_class(c).expect("statement class level"),
+            });
+        }
+    }
+    for _ in 0..locals {
+        facts.locals.push(LocalInfo {
+            name: "x",
+            owner: FunctionId(0),
+            declaring_scope: ScopeId(0),
+            decl_span: root.span.clone(),
+            decl_stmt: None,
+            kind: LocalKind::Variable,
+        });
+    }
+    let mut all = Vec::new();
+    for &budget in budgets {
+        let out = Arena::new(256 << 20).unwrap();
+        let summaries = summary::compute_summaries_with_max_events(&facts, budget, &out);
+        let sorted = |v: Vec<u32>| {
+            let mut v = v;
+            v.sort_unstable();
+            v
+        };
+        all.push(
+            summaries
+                .iter()
+                .map(|s| SummRow {
+                    available: s.available,
+                    callees: sorted(s.transitive_callees.iter().map(|c| c.0).collect()),
+                    reads: sorted(s.transitive_capture_reads.iter().map(|c| c.0).collect()),
+                    writes: sorted(s.transitive_capture_writes.iter().map(|c| c.0).collect()),
+                    class: class_level(s.transitive_class),
+                    body: class_level(s.body_class),
+                })
+                .collect(),
+        );
+    }
+    all
+}
+
+/// Size of the largest strongly connected component, from the transitive callee sets of a run
+/// whose summaries are all available.
+fn max_scc(rows: &[SummRow]) -> usize {
+    let reach = |i: usize, j: usize| rows[i].callees.binary_search(&(j as u32)).is_ok();
+    (0..rows.len()).map(|i| (0..rows.len()).filter(|&j| j == i || (reach(i, j) && reach(j, i))).count()).max().unwrap_or(0)
+}
+
+fn answer_summ(w: &[&str], lineno: usize) -> Answer {
+    let Some((budget, locals, fns)) = parse_summ(w) else { return bad() };
+    let bound = summary_bound(fns.len(), locals);
+    let wf = directs_wellformed(locals, &fns);
+    let mut runs = real_summaries(locals, &fns, &[budget, u64::MAX]);
+    let full = runs.pop().unwrap();
+    let rows = runs.pop().unwrap();
+    let lost = rows.iter().filter(|r| !r.available).count();
+    let mut oracle = Vec::new();
+    if wf && u128::from(budget) >= bound && lost != 0 {
+        oracle.push(format!(
+            "summary budget: {lost} of {} function summaries are unavailable although the event budget {budget} is at least the preflight bound {bound}",
+            rows.len()
+        ));
+    }
+    if full.iter().any(|r| !r.available) {
+        oracle.push("summary budget: summaries unavailable with an unlimited event budget".to_string());
+    }
+    // what a budget cannot change: an available summary is the one the unlimited run computes
+    for (i, (r, u)) in rows.iter().zip(full.iter()).enumerate() {
+        if r.available && (r.callees != u.callees || r.reads != u.reads || r.writes != u.writes || r.class != u.class) {
+            oracle.push(format!("summary budget: function {i} is available with budget {budget} but differs from the unlimited run"));
+            break;
+        }
+    }
+    let ans = rows
+        .iter()
+        .map(|r| {
+            format!("{}:{}:{}:{}:{}:{}", u8::from(r.available), ids_str(&r.callees), ids_str(&r.reads), ids_str(&r.writes), r.class, r.body)
+        })
+        .collect::<Vec<_>>()
+        .join(" ");
+    let side = format!(
+        "SUMM {lineno} f={} l={locals} budget={budget} bound={bound} lost={lost} maxscc={} wf={}",
+        fns.len(),
+        max_scc(&full),
+        u8::from(wf)
+    );
+    (if ans.is_empty() { "-".to_string() } else { ans }, oracle, vec![side])
+}
+
+/// Direct facts of a program as the real resolver records them.
+fn directs_of_facts(facts: &ProgramFacts<'_, '_>) -> (u64, Vec<DirectFn>) {
+    let mut fns: Vec<DirectFn> = facts
+        .function_directs
+        .iter()
+        .map(|d| DirectFn {
+            callees: d.direct_callees.iter().map(|c| c.0).collect(),
+            reads: d.direct_capture_reads.iter().map(|c| c.0).collect(),
+            writes: d.direct_capture_writes.iter().map(|c| c.0).collect(),
+            stmts: Vec::new(),
+        })
+        .collect();
+    for s in &facts.stmt_effects {
+        if let Some(d) = fns.get_mut(s.function.0 as usize) {
+            d.stmts.push(class_level(s.expr_class));
+        }
+    }
+    (facts.locals.len() as u64, fns)
+}
+
+fn directs_of_source(src: &str) -> Result<(u64, Vec<DirectFn>), String> {
+    util::catch(|| {
+        let arena = arena_for(src.len());
+        let lexer = Lexer::new(src, &arena);
+        let mut parser = Parser::new(lexer, &arena);
+        let (root, perrs) = parser.parse_program();
+        if !perrs.diagnostics.is_empty() {
+            return Err(format!("parse error in generated program: {}", pipeline::diags_str(perrs)));
+        }
+        let mut resolver = Resolver::new(&arena);
+        resolver.resolve(root);
+        if resolver.errors.has_errors() {
+            return Err(format!("generated program rejected: {}", pipeline::diags_str(&resolver.errors)));
+        }
+        if resolver.facts.function_directs.len() != resolver.facts.functions.len() {
+            return Err("function_directs and functions differ in length".to_string());
+        }
+        Ok(directs_of_facts(&resolver.facts))
+    })
+    .unwrap_or_else(|m| Err(format!("front end panicked: {}", m.replace('\n', " "))))
+}
+
+/// A program whose top-level functions call each other freely (cycles, self calls: it is never run),
+/// read and write root variables (captures), and may hold a nested function that captures the
+/// enclosing function's variable as well.
+fn summ_source(rng: &mut Rng) -> String {
+    let n = 1 + rng.below(14);
+    let m = 1 + rng.below(5);
+    let mut s = String::new();
+    for j in 0..m {
+        let _ = writeln!(s, "make g{j} get {j}");
+    }
+    // edges: a ring through a random prefix, plus random extra calls
+    let ring = if rng.chance(2, 3) { 2 + rng.below(n) } else { 0 };
+    for i in 0..n {
+        let _ = writeln!(s, "do t{i}(p) start\nmake a get p");
+        let body = |rng: &mut Rng, s: &mut String, me: &str, nested: bool| {
+            for _ in 0..rng.below(5) {
+                let g = rng.below(m);
+                let t = rng.below(n);
+                match rng.below(9) {
+                    0 => {
+                        let _ = writeln!(s, "g{g} get g{g} add 1");
+                    }
+                    1 => {
+                        let _ = writeln!(s, "shout(g{g})");
+                    }
+                    2 => {
+                        let _ = writeln!(s, "make q{} get g{g}", rng.below(3));
+                    }
+                    3 => {
+                        let _ = writeln!(s, "a get t{t}(a)");
+                    }
+                    4 => {
+                        let _ = writeln!(s, "t{t}(1)");
+                    }
+                    5 => {
+                        let _ = writeln!(s, "make r{} get 7 divide 2", rng.below(3));
+                    }
+                    6 => {
+                        let _ = writeln!(s, "a get {me}");
+                    }
+                    7 if nested => {
+                        let _ = writeln!(s, "a get a add 1");
+                    }
+                    _ => {
+                        let _ = writeln!(s, "make w{} get 1", rng.below(3));
+                    }
+                }
+            }
+        };
+        let me = if rng.chance(1, 6) { format!("t{i}(a)") } else { "a".to_string() };
+        if rng.chance(1, 4) {
+            let _ = writeln!(s, "do n{i}() start");
+            body(rng, &mut s, "0", true);
+            s.push_str("return a\nend\n");
+            if rng.chance(3, 4) {
+                let _ = writeln!(s, "a get n{i}()");
+            }
+        }
+        body(rng, &mut s, &me, false);
+        if i < ring {
+            let _ = writeln!(s, "a get t{}(a)", (i + 1) % ring.min(n));
+        }
+        s.push_str("return a\nend\n");
+    }
+    for _ in 0..1 + rng.below(3) {
+        let _ = writeln!(s, "shout(t{}(1))", rng.below(n));
+    }
+    s
+}
+
+fn subset(rng: &mut Rng, n: u64, num: u64, den: u64) -> Vec<u32> {
+    let mut v: Vec<u32> = (0..n as u32).filter(|_| rng.chance(num, den)).collect();
+    // any order: the lists are sets with a first-seen order
+    for i in (1..v.len()).rev() {
+        v.swap(i, rng.below(i as u64 + 1) as usize);
+    }
+    v
+}
+
+/// Random direct facts: (shape name, locals, functions).
+fn summ_graph(rng: &mut Rng, fmax: u64) -> (&'static str, u64, Vec<DirectFn>) {
+    let f = match rng.below(10) {
+        0 => 1,
+        1 => 2,
+        2 | 3 => 3 + rng.below(6),
+        _ => 3 + rng.below(fmax - 2),
+    };
+    let locals = match rng.below(5) {
+        0 => 0,
+        1 => 1,
+        _ => rng.below(13),
+    };
+    let mut edges: Vec<Vec<u32>> = vec![Vec::new(); f as usize];
+    let add = |edges: &mut Vec<Vec<u32>>, a: u64, b: u64| {
+        if !edges[a as usize].contains(&(b as u32)) {
+            edges[a as usize].push(b as u32);
+        }
+    };
+    let shape = match rng.below(11) {
+        0 => {
+            // sparse random
+            for _ in 0..rng.below(2 * f + 1) {
+                let (a, b) = (rng.below(f), rng.below(f));
+                add(&mut edges, a, b);
+            }
+            "sparse"
+        }
+        1 => {
+            for a in 0..f {
+                for b in 0..f {
+                    if rng.chance(1, 2) {
+                        add(&mut edges, a, b);
+                    }
+                }
+            }
+            "dense"
+        }
+        2 => {
+            // one ring through everything, forward or backward
+            let fwd = rng.chance(1, 2);
+            for a in 0..f {
+                add(&mut edges, a, if fwd { (a + 1) % f } else { (a + f - 1) % f });
+            }
+            if fwd { "ring" } else { "ring-backward" }
+        }
+        3 => {
+            // ring of k plus chords, the rest calls into it or is called from it or is apart
+            let k = 1 + rng.below(f);
+            for a in 0..k {
+                add(&mut edges, a, (a + 1) % k);
+                if rng.chance(1, 3) {
+                    add(&mut edges, a, rng.below(k));
+                }
+            }
+            for a in k..f {
+                match rng.below(3) {
+                    0 => add(&mut edges, a, rng.below(k)),
+                    1 => add(&mut edges, rng.below(k), a),
+                    _ => {}
+                }
+            }
+            "ring+rest"
+        }
+        4 => {
+            // a chain of rings: component i calls component i+1 (or i-1)
+            let mut lo = 0;
+            let down = rng.chance(1, 2);
+            let mut prev: Option<(u64, u64)> = None;
+            while lo < f {
+                let k = (1 + rng.below(6)).min(f - lo);
+                for a in 0..k {
+                    if k > 1 || rng.chance(1, 3) {
+                        add(&mut edges, lo + a, lo + (a + 1) % k);
+                    }
+                }
+                if let Some((plo, pk)) = prev {
+                    let (x, y) = (plo + rng.below(pk), lo + rng.below(k));
+                    if down { add(&mut edges, x, y) } else { add(&mut edges, y, x) }
+                }
+                prev = Some((lo, k));
+                lo += k;
+            }
+            "chain-of-rings"
+        }
+        5 => {
+            for a in 0..f {
+                for b in 0..f {
+                    add(&mut edges, a, b);
+                }
+            }
+            "complete"
+        }
+        6 => {
+            // acyclic: calls go to larger (or smaller) ids only
+            let up = rng.chance(1, 2);
+            for a in 0..f {
+                for b in 0..f {
+                    if a != b && (a < b) == up && rng.chance(1, 3) {
+                        add(&mut edges, a, b);
+                    }
+                }
+            }
+            "dag"
+        }
+        7 => {
+            // the root calls everything, leaves call nothing; a few self calls
+            for b in 1..f {
+                add(&mut edges, 0, b);
+            }
+            for a in 0..f {
+                if rng.chance(1, 4) {
+                    add(&mut edges, a, a);
+                }
+            }
+            "star+self"
+        }
+        8 => {
+            // two rings that share a function, everything else apart
+            let k = 1 + rng.below(f);
+            let j = rng.below(k) + 1;
+            for a in 0..j {
+                add(&mut edges, a, (a + 1) % j);
+            }
+            for a in (j - 1)..k {
+                add(&mut edges, a, if a + 1 < k { a + 1 } else { j - 1 });
+            }
+            "two-rings"
+        }
+        9 => {
+            // a long call chain towards a ring at the end (many sweeps of nothing, then the ring)
+            let k = 1 + rng.below(f.min(8));
+            for a in 0..f - k {
+                add(&mut edges, a, a + 1);
+            }
+            for a in 0..k {
+                add(&mut edges, f - k + a, f - k + (a + 1) % k);
+            }
+            "chain-to-ring"
+        }
+        _ => {
+            // random with a given out-degree
+            let deg = 1 + rng.below(4);
+            for a in 0..f {
+                for _ in 0..deg {
+                    add(&mut edges, a, rng.below(f));
+                }
+            }
+            "regular"
+        }
+    };
+    let (num, den) = *rng.pick(&[(0, 1), (1, 8), (1, 3), (1, 1)]);
+    let fns = edges
+        .into_iter()
+        .map(|callees| DirectFn {
+            callees,
+            reads: if locals == 0 { Vec::new() } else { subset(rng, locals, num, den) },
+            writes: if locals == 0 || rng.chance(1, 2) { Vec::new() } else { subset(rng, locals, num, den * 2) },
+            stmts: (0..rng.below(4)).map(|_| *rng.pick(&[0u8, 0, 0, 1, 1, 2])).collect(),
+        })
+        .collect();
+    (shape, locals, fns)
+}
+
+/// Events the fixpoint needs: the least budget that leaves every summary available (the runs with
+/// different budgets are prefixes of each other, so the condition is monotone).
+fn events_needed(locals: u64, fns: &[DirectFn]) -> Option<u64> {
+    let ok = |b: u64| real_summaries(locals, fns, &[b])[0].iter().all(|r| r.available);
+    let mut hi = u64::try_from(summary_bound(fns.len(), locals)).ok()?;
+    if !ok(hi) {
+        return None;
+    }
+    let mut lo = 0u64;
+    while lo < hi {
+        let mid = lo + (hi - lo) / 2;
+        if ok(mid) { hi = mid } else { lo = mid + 1 }
+    }
+    Some(hi)
+}
+
+fn gen_summ(args: &[String]) -> i32 {
+    util::silence_panics();
+    let seed = util::opt_u64(args, "--seed", 1);
+    let n = util::opt_u64(args, "--n", 100);
+    let fmax = util::opt_u64(args, "--fmax", 40).max(4);
+    let mut rng = Rng::new(seed ^ 0x5_0AA5);
+    let mut out = util::Out::new();
+    let mut stats = std::collections::BTreeMap::<String, u64>::new();
+    let mut bump = |k: &str, by: u64| *stats.entry(k.to_string()).or_insert(0) += by;
+    let mut made = 0u64;
+    let mut attempts = 0u64;
+    while made < n && attempts < 4 * n + 16 {
+        attempts += 1;
+        let (shape, locals, mut fns) = if rng.chance(1, 4) {
+            match directs_of_source(&summ_source(&mut rng)) {
+                Ok((l, fns)) => ("resolver", l, fns),
+                Err(m) => {
+                    bump("source_generator_failure", 1);
+                    eprintln!("GEN-NOTE {m}");
+                    continue;
+                }
+            }
+        } else {
+            summ_graph(&mut rng, fmax)
+        };
+        // malformed: what the resolver never records (the accounting theorem assumes it away, the
+        // correspondence does not)
+        let mut kind = shape.to_string();
+        if shape != "resolver" && rng.chance(1, 25) {
+            let i = rng.below(fns.len() as u64) as usize;
+            if rng.chance(1, 2) {
+                let bad = fns.len() as u32 + rng.below(3) as u32;
+                fns[i].callees.push(bad);
+                kind = "malformed-callee-out-of-range".to_string();
+            } else {
+                let d = &mut fns[i];
+                let v = match rng.below(3) {
+                    0 => &mut d.callees,
+                    1 => &mut d.reads,
+                    _ => &mut d.writes,
+                };
+                if let Some(&x) = v.first() {
+                    v.push(x);
+                    kind = "malformed-duplicate".to_string();
+                }
+            }
+        }
+        let bound = u64::try_from(summary_bound(fns.len(), locals)).unwrap_or(u64::MAX);
+        let needed = util::catch(|| events_needed(locals, &fns)).ok().flatten();
+        let mut budgets = vec![bound, bound.saturating_sub(1), 0];
+        match needed {
+            Some(e) => {
+                budgets.extend([e, e.saturating_sub(1), e / 2]);
+                if e > 0 {
+                    budgets.extend([rng.below(e), rng.below(e)]);
+                }
+                if e == bound {
+                    bump("programs_needing_exactly_the_bound", 1);
+                }
+            }
+            None => bump("programs_without_sufficient_budget_or_panicking", 1),
+        }
+        budgets.sort_unstable();
+        budgets.dedup();
+        for &b in budgets.iter().rev() {
+            out.line(&summ_request(b, locals, &fns));
+        }
+        bump("summ_requests", budgets.len() as u64);
+        bump(&format!("shape_{kind}"), 1);
+        made += 1;
+    }
+    let s: Vec<String> = stats.iter().map(|(k, v)| format!("{k}={v}")).collect();
+    eprintln!("GEN-STATS programs={made} {}", s.join(" "));
+    0
 }
